@@ -270,7 +270,12 @@ def write_timedelta_i32(buffer: Writable, value: i32Timedelta) -> None:
 
 
 def write_timedelta_i64(buffer: Writable, value: i64Timedelta) -> None:
-    write_int64(buffer, round(value.total_seconds() * 1000))  # type: ignore[arg-type]
+    # Use integer arithmetic, float cannot represent all 64-bit millisecond values.
+    milliseconds, remainder = divmod(value // datetime.timedelta(microseconds=1), 1000)
+    # Round half to even, like round() does.
+    if remainder > 500 or (remainder == 500 and milliseconds % 2 == 1):
+        milliseconds += 1
+    write_int64(buffer, milliseconds)  # type: ignore[arg-type]
 
 
 def write_datetime_i64(buffer: Writable, value: datetime.datetime) -> None:
